@@ -39,6 +39,8 @@ def _correspondence_once(ctx, rep=0):
             for inverse in (False, True):
                 x = R.make_inputs(e, B, gen, torch.float64, inverse)
                 c = R.make_context(e, B, gen, torch.float64)
+                if c is not None and B >= 3 and not inverse:
+                    c[B - 1] = c[0]          # first and last context rows coincide, the rows between differ
                 j = tcorr.make_job(e, t, x, c, inverse, 'normal', tag='B%d' % B)
                 jobs.append(j)
                 cond = R.conditioner_of(t)
@@ -47,6 +49,8 @@ def _correspondence_once(ctx, rep=0):
                     rec = R.Recorder(cond); R.impl_call(t, x, c, inverse); rec.close()
                     whole = rec.calls[0][1]
                     i = int(torch.randint(0, B, (1,), generator=gen))
+                    if c is not None and B >= 3 and not inverse:
+                        i = 1 + int(torch.randint(0, B - 2, (1,), generator=gen))      # a row between the coinciding ones
                     rec = R.Recorder(cond); k1, y1, ld1 = R.impl_call(t, x[i:i + 1], c[i:i + 1] if c is not None else None, inverse); rec.close()
                     if k1 == 'ok' and rec.calls:
                         side.append((e, B, inverse, i, whole[i:i + 1], rec.calls[0][1], j.y[i:i + 1], y1, j.ld[i:i + 1], ld1,
@@ -82,10 +86,73 @@ def _correspondence_once(ctx, rep=0):
     _extras(ctx)
     if rep == 0:
         dist_rows(ctx)
+        long_batches(ctx, count=True)
+
+
+def long_batches(ctx, count=False):
+    """ONE call on a very long batch (66000 rows: more than 2^16, not a multiple of 2^12 or 2^16): an implementation that processes long
+    batches in blocks must pair every block with its own rows of the context and must not leave a partial last block unprocessed.
+    Rows at the block borders, evaluated alone, must reproduce their entries of the batch result."""
+    import copy
+    gen = torch.Generator().manual_seed(ctx.seed + 1213)
+    N = 66000
+    idx = [0, 4095, 4096, 8191, 8192, 65535, 65536, N - 1]
+    seen = set()
+    before = len(ctx.failing)
+    for e in oracles.all_entries('quick'):
+        cls = e.name.split('/')[0]
+        numel = 1
+        for d_ in e.in_shape:
+            numel *= d_
+        key = (cls, e.ctx is not None, e.spline.get('fam'), bool(e.spline.get('B')))
+        if e.extra.get('big') or e.extra.get('train') or numel > 8 or key in seen or 'UMNN' in e.name or not (e.ctx is not None or e.spline):
+            continue
+        seen.add(key)
+        try:
+            t = tcorr.build(e, gen, torch.float64, 'normal')
+            for inverse in (False, True):
+                x = R.make_inputs(e, N, gen, torch.float64, inverse)
+                c = R.make_context(e, N, gen, torch.float64)
+                with torch.no_grad():
+                    k, y, ld = R.impl_call(copy.deepcopy(t), x, c, inverse)
+                if k != 'ok':
+                    continue
+                if count:
+                    ctx.case(key=('long-batch', e.name, inverse), branch='long-batch', nontrivial=True, n=len(idx))
+                tol = dict(rtol=1e-4, atol=1e-4) if e.spline.get('fam') == 'cubic' and inverse else dict(rtol=1e-6, atol=1e-8)
+                for i in idx:
+                    ci = c[i:i + 1] if c is not None else None
+                    with torch.no_grad():
+                        k1, y1, l1 = R.impl_call(copy.deepcopy(t), x[i:i + 1], ci, inverse)
+                    if k1 != 'ok':
+                        continue
+                    same = torch.allclose(y1, y[i:i + 1], equal_nan=True, **tol) and torch.allclose(l1, ld[i:i + 1], equal_nan=True, **tol)
+                    if not same and inverse and bool(torch.isfinite(y1).all() and torch.isfinite(y[i:i + 1]).all()):
+                        # ill-conditioned inverse: both answers are preimages in the backward-error sense
+                        def pre(yy, ll):
+                            kf, fy, fl = R.impl_call(copy.deepcopy(t), yy, ci, False)
+                            return kf == 'ok' and torch.allclose(fy, x[i:i + 1], rtol=1e-8, atol=1e-8) and torch.allclose(fl, -ll, rtol=1e-5, atol=1e-5)
+                        same = pre(y1, l1) and pre(y[i:i + 1], ld[i:i + 1])
+                    if not same:
+                        ctx.fail('row %d of a batch of %d rows differs from evaluating the row alone' % (i, N),
+                                 {'entry': e.name, 'inverse': inverse, 'rows': N, 'row': i, 'x': x[i].reshape(-1).tolist()[:12],
+                                  'context': ci.reshape(-1).tolist()[:12] if ci is not None else None,
+                                  'batch': y[i].reshape(-1).tolist()[:6], 'alone': y1.reshape(-1).tolist()[:6]},
+                                 match={'class': cls, 'symptom': 'row-dependence', 'rows': 'long'})
+                        break
+        except Exception as ex:
+            ctx.notes.append('C12 long-batch oracle on %s raised %r' % (e.name, ex))
+        if len(ctx.failing) - before >= 4:
+            break
+    if count:
+        for f_ in ctx.failing[before:]:
+            if not ctx.is_known(f_.get('match', {})):
+                ctx.disagree('C12/long-batch', f_['case'], f_['what'], 'property holds', f_['what'])
 
 
 def search(ctx):
     dist_rows(ctx, report=lambda what, case, match: ctx.fail(what, case, match=match))
+    long_batches(ctx)
     direct(ctx)
 
 
@@ -158,6 +225,8 @@ def direct(ctx, entries=None, count=False):
                 B = 5
                 x = R.make_inputs(e, B, gen, torch.float64, inverse)
                 c = R.make_context(e, B, gen, torch.float64)
+                if c is not None and not inverse:
+                    c[B - 1] = c[0]          # first and last context rows coincide, the rows between differ
                 if e.extra.get('train'):
                     continue
                 import copy
@@ -185,7 +254,7 @@ def direct(ctx, entries=None, count=False):
                         if kf != 'ok' or not torch.allclose(fy, xi, rtol=1e-8, atol=1e-8) or not torch.allclose(fl, -ll, rtol=1e-5, atol=1e-5):
                             return False
                     return True
-                for i in (0, B - 1):
+                for i in (0, 2, B - 1):
                     ci = c[i:i + 1] if c is not None else None
                     k1, y1, l1 = R.impl_call(copy.deepcopy(t), x[i:i + 1], ci, inverse)
                     if k1 != 'ok' or not same_row(y1, l1, y[i:i + 1], ld[i:i + 1], x[i:i + 1], ci):
